@@ -46,6 +46,27 @@ def encodeBridged (routing : List Route) (h : Hdr) (payload : List Nat) (seq : N
       (fun b acc => acc.bind fun tx => encodeSendMessage tx b.rqSa b.rsSa b.channel seq)
       (encodeIpmbMsg { h with rqSa := last.rqSa, rsSa := last.rsSa } payload)
 
+/-- The part of `pyipmi.Target` that bridging depends on: the stored path (the class attribute
+`routing = None` until a path is set). -/
+structure Target where
+  routing : Option (List Route) := none
+  deriving Repr
+
+/-- `Target.set_routing(routing)` (also `set_routing_information`, and `Target(routing=…)`):
+`self.routing = [Routing(*route) for route in routing]` — the stored path is REPLACED by the
+new one, whatever was stored before (nothing of an earlier path survives). -/
+def Target.setRouting (t : Target) (rs : List Route) : Target := { t with routing := some rs }
+
+/-- a history of `set_routing` calls on ONE Target object, oldest first -/
+def Target.reroute (t : Target) (paths : List (List Route)) : Target := paths.foldl Target.setRouting t
+
+/-- what the transport transmits for a routed target (`if target.routing:` branch of
+`Rmcp._send_and_receive`): the nest for the path stored AT THAT MOMENT -/
+def Target.request (t : Target) (h : Hdr) (payload : List Nat) (seq : Nat) : Outcome (List Nat) :=
+  match t.routing with
+  | some (r :: rs) => encodeBridged (r :: rs) h payload seq
+  | _ => .pyError "not-routed"
+
 /-- `decode_bridged_message(rx_data)`:
 ```
 while array('B', rx_data)[5] == CMDID_SEND_MESSAGE:
